@@ -314,13 +314,24 @@ impl Env {
             };
             if !tap.is_empty() {
                 let p = rc::parse(&tap, scanned == 0);
+                let mut off = scanned;
                 for it in &p.items {
+                    off += match it {
+                        rc::WItem::Greeting(_) => 64,
+                        rc::WItem::Command(b) => b.len() + if b.len() > 255 { 9 } else { 2 },
+                        rc::WItem::Message(m) => m.iter().map(|f| f.len() + if f.len() > 255 { 9 } else { 2 }).sum(),
+                    };
                     match it {
                         rc::WItem::Greeting(_) => self.ev(json!({"ev":"wire","c":c,"k":"greeting"})),
                         rc::WItem::Command(b) => self.ev(json!({"ev":"wire","c":c,"k":"cmd","b":rc::hex(b)})),
                         rc::WItem::Message(m) => {
                             self.last_wire_conn = Some(c);
-                            self.ev(json!({"ev":"wire","c":c,"k":"msg","m":rc::mdesc(m)}))
+                            let n: usize = m.iter().map(|f| f.len() + if f.len() > 255 { 9 } else { 2 }).sum();
+                            let mut e = json!({"ev":"wire","c":c,"k":"msg","m":rc::mdesc(m),"n":n,"off":off});
+                            if m.len() == 1 && m[0].len() <= 16 && !m[0].is_empty() {
+                                e["f0"] = json!(m[0]);
+                            }
+                            self.ev(e)
                         }
                     }
                 }
@@ -433,7 +444,7 @@ impl Env {
                 let frames = frames_of(&op["m"]);
                 let b = rc::enc_msg(&frames);
                 self.push_cut(c, &b, op.get("cuts"));
-                self.ev(json!({"ev":"peer_wrote","c":c,"m":rc::mdesc(&frames)}));
+                self.ev(json!({"ev":"peer_wrote","c":c,"m":rc::mdesc(&frames),"note":op.get("note").cloned().unwrap_or(Value::Null)}));
             }
             "preply" => {
                 // the peer that received the library's last message answers (no-op if nothing was written yet)
@@ -494,7 +505,8 @@ impl Env {
                 if let Some(cn) = self.conns.get(&c) {
                     cn.from_lib.credit(k);
                 }
-                self.ev(json!({"ev":"pipe","c":c,"what":"credit","k":op.get("k").cloned().unwrap_or(Value::Null)}));
+                let tap = self.conns.get(&c).map(|k| k.from_lib.tap_len()).unwrap_or(0);
+                self.ev(json!({"ev":"pipe","c":c,"what":"credit","k":op.get("k").cloned().unwrap_or(Value::Null),"tap":tap}));
             }
             "maxw" => {
                 let k = op.get("k").and_then(|v| v.as_u64()).map(|x| x as usize);
@@ -624,7 +636,8 @@ pub async fn run_scenario(sc: &Value) -> Vec<Value> {
                 let d = rc::mdesc(&frames);
                 match sock.send(to_msg(&frames)) {
                     Some(f) => {
-                        env.ev(json!({"ev":"send_call","m":d}));
+                        let n: usize = frames.iter().map(|f| f.len() + if f.len() > 255 { 9 } else { 2 }).sum();
+                        env.ev(json!({"ev":"send_call","m":d,"n":n,"note":op.get("note").cloned().unwrap_or(Value::Null)}));
                         Some(Call::Send(f, d))
                     }
                     None => None,
@@ -634,7 +647,7 @@ pub async fn run_scenario(sc: &Value) -> Vec<Value> {
                 let on = name == "sub";
                 match sock.subscribe(&topic_owned, on) {
                     Some(f) => {
-                        env.ev(json!({"ev":"sub_call","on":on,"t":topic_owned}));
+                        env.ev(json!({"ev":"sub_call","on":on,"t":topic_owned,"tb":topic_owned.as_bytes()}));
                         Some(Call::Sub(f, on, topic_owned.clone()))
                     }
                     None => None,
